@@ -17,8 +17,15 @@ pub fn o_fixpoint(input: &[u8], p: &P) -> Out {
 	let mut out = Out { transitions: 1, nontrivial: true, ..Default::default() };
 	let g = match read_slp(input, false, false) {
 		Ok(g) => g,
-		Err(Fail::Err(_)) => {
-			// not accepted: outside the property's quantifier (counted by the driver)
+		Err(Fail::Err(m)) => {
+			// not accepted: outside the property's quantifier (counted by the driver) - provided the refusal is
+			// the reader's verdict on the BYTES: the same bytes from a plain in-memory cursor must be refused too
+			// (`read_slp` serves them in pieces, from an offset, with an interrupted call, after other calls)
+			if let Ok(Ok(_)) = catch(|| peppi::io::slippi::read(std::io::Cursor::new(input), None)) {
+				out.obs = 4;
+				out.viol = crate::common::viol("fixpoint", p, "acceptance-depends-on-environment", format!("the reader accepts these bytes from a plain cursor but refused them as served by the harness's rotated read environment: {}", m));
+				return out;
+			}
 			out.obs = 2;
 			return out;
 		}
@@ -112,7 +119,7 @@ fn permutations(inner: &[Ev], must_start_with_pre: bool) -> Vec<Vec<Ev>> {
 
 pub fn run() {
 	let cx = ctx();
-	cx.note("rule", json!("irregular-but-tolerated inputs: every permutation of a frame's pre/post/item events that keeps each character's pre before its post (before 2.2: starting with a pre), x junk after Game End inside the raw element (1, 2, size(Game End)+1 bytes that are not a second Game End), x unknown events, x Game End absent, x metadata absent - all combinations, in all three framing regimes, on three base histories (follower absent; leader absent + whole Ice-Climbers pair absent; Gecko list filling its last block exactly); plus the canonical history space of C04 and Gecko lists of 512/1024/1536/700/66000 bytes. For each input the reader accepts: the written .slp declares exactly the measured length of its raw element (measured from the file length and the harness's own encoding of the metadata), reads again, the re-read game equals the first on start, end, metadata, gecko codes and all frame data, and writing it again reproduces the written file. Every case is non-trivial (carries at least a non-canonical order or another irregularity, except the identity permutation)"));
+	cx.note("rule", json!("irregular-but-tolerated inputs: every permutation of a frame's pre/post/item events that keeps each character's pre before its post (before 2.2: starting with a pre), x junk after Game End inside the raw element (1, 2, size(Game End)+1 bytes that are not a second Game End), x unknown events (inside the frame, before Game End, after Game End), x Game End absent or doubled, x metadata absent - all combinations, in all three framing regimes, on three base histories (follower absent; leader absent + whole Ice-Climbers pair absent; Gecko list filling its last block exactly); plus the canonical history space of C04 and Gecko lists of 512/1024/1536/700/66000 bytes. For each input the reader accepts: the written .slp declares exactly the measured length of its raw element (measured from the file length and the harness's own encoding of the metadata), reads again, the re-read game equals the first on start, end, metadata, gecko codes and all frame data, and writing it again reproduces the written file. Every case is non-trivial (carries at least a non-canonical order or another irregularity, except the identity permutation)"));
 	cx.note("exhaustive", json!(true));
 	cx.note("assumptions", json!(["inputs the reader rejects are outside the property's quantifier; their number is reported as not_accepted"]));
 	let versions: Vec<(u8, u8)> = if cx.quick() { vec![(0, 1), (2, 0), (2, 2), (3, 0), (3, 16)] } else { spec::v_rep() };
@@ -168,8 +175,8 @@ pub fn run() {
 					d.events[first + k] = e.clone();
 				}
 				for junk in 0..4usize {
-					for unk in 0..3usize {
-						for ends in [1u8, 0] {
+					for unk in 0..4usize {
+						for ends in [1u8, 0, 2] {
 							for meta in [true, false] {
 								if cx.quick() && (junk > 0) as usize + (unk > 0) as usize + (ends == 0) as usize + (!meta) as usize > 2 {
 									continue;
@@ -178,6 +185,15 @@ pub fn run() {
 								let end_sz = spec::game_end_size(v);
 								if ends == 0 {
 									d2.events.retain(|e| e.code != 0x39);
+								}
+								if ends == 2 {
+									// the doubled Game End some recorders write: irregular on its own, combined with the
+									// permutations, an unknown event (also between the two ends) and missing metadata
+									if junk > 0 {
+										continue;
+									}
+									let ge = d2.events.iter().find(|e| e.code == 0x39).cloned().unwrap();
+									d2.events.push(ge);
 								}
 								if junk > 0 {
 									if ends == 0 {
@@ -189,13 +205,18 @@ pub fn run() {
 								if unk > 0 {
 									let (code, size) = UNKNOWN[unk];
 									d2.table.push((code, size));
-									let at = if unk == 1 { first + 1 } else { d2.events.len() - (ends as usize) };
+									// inside the frame / just before Game End / after Game End (the last event of the raw element)
+									let at = match unk {
+										1 => first + 1,
+										2 => d2.events.len() - (ends.min(1) as usize), // with two ends: between them
+										_ => d2.events.len(),
+									};
 									d2.events.insert(at, unknown_event(unk, 1));
 								}
 								if !meta {
 									d2.metadata = None;
 								}
-								let class: &'static str = if ends == 0 { "no-end" } else if junk > 0 { "junk-after-end" } else if unk > 0 { "unknown-event" } else if !meta { "no-metadata" } else { "permutation" };
+								let class: &'static str = if ends == 0 { "no-end" } else if ends == 2 { "double-end" } else if junk > 0 { "junk-after-end" } else if unk > 0 { "unknown-event" } else if !meta { "no-metadata" } else { "permutation" };
 								jobs.push((d2.assemble(), format!("v{}.{} variant {} row {} order {:?} junk={} unknown={} ends={} meta={}", v.0, v.1, variant, target_row, perm.iter().map(|e| e.tag).collect::<Vec<_>>(), junk, unk, ends, meta), class));
 							}
 						}
